@@ -63,6 +63,17 @@ check(
     "DESIGN.md §4 C05",
 )
 
+check(
+    "C12", "exploration",
+    "The full ordered pair table over a depth-2 universe of ~210 types (exhaustive for that universe), all triples "
+    "over the class/generic fragment, plus Hypothesis-sampled deeper pairs; each pair checked for mirror symmetry, "
+    "reflexivity and the listed structural laws. The mirror failures between two hook-owning combinators are a "
+    "recorded known finding (F5); every other pair is asserted.",
+    "Types are compared after ovld's own annotation normalisation; Whatever/All excluded as the property says.",
+    "exhaustive pair/triple enumeration + Hypothesis sampling against algebraic laws",
+    "DESIGN.md §4 C12",
+)
+
 ALL = [f"C{i:02d}" for i in range(1, 21)]
 REASON_PENDING = "check not built yet in this revision of /verif (work in progress; see DESIGN.md §8)"
 
